@@ -1008,6 +1008,9 @@ class _AsyncDequeueIterator:
       )
       return self._cache.popleft()
     else:
+      # Like the sync iterator: an early stop releases the blocked enqueuers.
+      if isinstance(self._iterator_queue, IteratorQueue):
+        self._iterator_queue.maybe_stop()
       raise StopAsyncIteration()
 
   def __aiter__(self):
